@@ -4,13 +4,15 @@ package props
 //
 // Inputs
 //   pf <threads> <outcap> <incap> <ops> <close> <sched>      Processor under a forced schedule
+//   pg <threads> <outcap> <incap> <ops;ops;…> <collectors> <close> <sched>
+//                                                             the same with several producers / collectors
 //   pu <threads> <gomaxprocs> <outcap> <incap> <ops> <mode>  Processor free running
 //   mp <n> <threads> <maxchunk> <errAt>                       Map free running
 //   pp <mrl> <calls> <sched>                                  Promise under a forced schedule
 //
 // ops:    comma list of v<k> (returns k), e<k> (returns k and an error), x<k> (panics), "-" = none
-// sched:  one letter per step: digit = worker, p producer, c collector, s stopper, w waiter
-//         (Processor); a, b, c, … = the calls in order (Promise)
+// sched:  one letter per step: digit = worker, p (q r) producer, c (d e) collector, s stopper,
+//         w waiter (Processor); a, b, c, … = the calls in order (Promise)
 // calls:  F<k>|Fn Fulfill, X<v>.<e> Fail (n = nil), R<k>|Rn Recover, B Break, W Wait
 //
 // Every case runs in a child process (`harness c19child`, a line server), because a
@@ -110,31 +112,46 @@ func procLetter(point string) byte {
 	return '?'
 }
 
+// pf <threads> <outcap> <incap> <ops> <close> <sched>: one producer, one collector
 func c19RunPF(f []string) string {
+	return c19RunPG([]string{"pg", f[1], f[2], f[3], f[4], "1", f[5], f[6]})
+}
+
+// pg <threads> <outcap> <incap> <ops;ops;…> <collectors> <close> <sched>
+//
+// Producer p submits its operations in order with Process; producer 0 then waits for the other
+// producers and closes the queue (if asked).  Every collector calls Result until it sees the
+// result channel closed.  Schedule letters: digits = workers, p q r = producers, c d e =
+// collectors, s = Stop, w = Wait.
+func c19RunPG(f []string) string {
 	threads, outcap, incap := hx.Atoi(f[1]), hx.Atoi(f[2]), hx.Atoi(f[3])
-	ops := parseC19Ops(f[4])
-	wantClose := f[5] == "1"
-	if threads < 1 || threads > runtime.NumCPU() || threads > 9 {
+	var prods [][]c19op
+	for _, part := range strings.Split(f[4], ";") {
+		prods = append(prods, parseC19Ops(part))
+	}
+	np, nc := len(prods), hx.Atoi(f[5])
+	wantClose := f[6] == "1"
+	if threads < 1 || threads > runtime.NumCPU() || threads > 9 || np < 1 || np > 3 || nc < 1 || nc > 3 {
 		return "skip"
 	}
 	var sched []int
-	if f[6] != "-" {
-		for _, ch := range f[6] {
+	if f[7] != "-" {
+		for _, ch := range f[7] {
 			switch {
 			case ch >= '0' && ch <= '9':
 				sched = append(sched, int(ch-'0'))
-			case ch == 'p':
-				sched = append(sched, threads)
-			case ch == 'c':
-				sched = append(sched, threads+1)
+			case ch >= 'p' && ch <= 'r':
+				sched = append(sched, threads+int(ch-'p'))
+			case ch >= 'c' && ch <= 'e':
+				sched = append(sched, threads+np+int(ch-'c'))
 			case ch == 's':
-				sched = append(sched, threads+2)
+				sched = append(sched, threads+np+nc)
 			case ch == 'w':
-				sched = append(sched, threads+3)
+				sched = append(sched, threads+np+nc+1)
 			}
 		}
 	}
-	ctl := newController(threads + 4)
+	ctl := newController(threads + np + nc + 2)
 	curCtl = ctl
 	concurrent.VerifHook = ctl.hook
 	defer func() { concurrent.VerifHook = nil; curCtl = nil }()
@@ -146,35 +163,49 @@ func c19RunPF(f []string) string {
 	p := concurrent.NewProcessor(queue, outcap, threads)
 	setProcs(1)
 	var mu sync.Mutex
-	var res []string
-	closed, waited := false, false
-	ctl.spawn(threads, func(park func()) {
-		for _, o := range ops {
-			park()
-			p.Process(o)
-		}
-		if wantClose {
-			park()
-			p.Close()
-		}
-	})
-	ctl.spawn(threads+1, func(park func()) {
-		for {
-			park()
-			v, e := p.Result()
-			if v == nil && e == nil {
-				mu.Lock()
-				closed = true
-				mu.Unlock()
+	res := make([][]string, nc)
+	closed := make([]bool, nc)
+	waited := false
+	var others sync.WaitGroup // the producers other than producer 0
+	others.Add(np - 1)
+	for pi := 0; pi < np; pi++ {
+		pi := pi
+		ctl.spawn(threads+pi, func(park func()) {
+			for _, o := range prods[pi] {
+				park()
+				p.Process(o)
+			}
+			if pi != 0 {
+				others.Done()
 				return
 			}
-			mu.Lock()
-			res = append(res, showC19Result(v, e))
-			mu.Unlock()
-		}
-	})
-	ctl.spawn(threads+2, func(park func()) { park(); p.Stop() })
-	ctl.spawn(threads+3, func(park func()) {
+			if wantClose {
+				park()
+				others.Wait()
+				p.Close()
+			}
+		})
+	}
+	for ci := 0; ci < nc; ci++ {
+		ci := ci
+		ctl.spawn(threads+np+ci, func(park func()) {
+			for {
+				park()
+				v, e := p.Result()
+				if v == nil && e == nil {
+					mu.Lock()
+					closed[ci] = true
+					mu.Unlock()
+					return
+				}
+				mu.Lock()
+				res[ci] = append(res[ci], showC19Result(v, e))
+				mu.Unlock()
+			}
+		})
+	}
+	ctl.spawn(threads+np+nc, func(park func()) { park(); p.Stop() })
+	ctl.spawn(threads+np+nc+1, func(park func()) {
 		park()
 		p.Wait()
 		mu.Lock()
@@ -184,17 +215,22 @@ func c19RunPF(f []string) string {
 	if !ctl.quiesce() {
 		return "hang"
 	}
-	order := make([]int, 0, threads+3)
-	for i := 0; i < threads+2; i++ {
+	order := make([]int, 0, threads+np+nc+1)
+	for i := 0; i < threads+np+nc; i++ {
 		order = append(order, i)
 	}
-	order = append(order, threads+3)
+	order = append(order, threads+np+nc+1)
 	trace, ok := ctl.runSchedule(sched, order, procLetter)
 	if !ok {
 		return "hang"
 	}
 	mu.Lock()
-	obs := fmt.Sprintf("t=%s res=%s closed=%s wait=%s", strings.Join(trace, "/"), joinOrDash(res), hx.B(closed), hx.B(waited))
+	var rs, cs []string
+	for ci := 0; ci < nc; ci++ {
+		rs = append(rs, joinOrDash(res[ci]))
+		cs = append(cs, hx.B(closed[ci]))
+	}
+	obs := fmt.Sprintf("t=%s res=%s closed=%s wait=%s", strings.Join(trace, "/"), strings.Join(rs, ";"), strings.Join(cs, ""), hx.B(waited))
 	mu.Unlock()
 	// let go of what is still parked (the stopper); goroutines that are blocked stay blocked
 	ctl.finish()
@@ -466,6 +502,8 @@ func c19Child(args []string) int {
 		switch f[0] {
 		case "pf":
 			obs = c19RunPF(f)
+		case "pg":
+			obs = c19RunPG(f)
 		case "pu":
 			obs = c19RunPU(f)
 		case "mp":
@@ -671,6 +709,118 @@ func randOps(g *hx.Gen, n int, special bool) string {
 
 func c19Gen(g *hx.Gen) {
 	gmp := runtime.GOMAXPROCS(0)
+	// random configurations and schedules, one producer and one collector
+	randPF := func(n int) {
+		for k := 0; k < n && !g.Done(); k++ {
+			t := g.Pick(1, 2, 2, 3, 3, 4)
+			nops := g.Pick(0, 1, t-1, t, t+1, t+3, 2*t+1)
+			if nops < 0 {
+				nops = 0
+			}
+			letters := []byte{'p', 'c', 's', 'w'}
+			weights := []int{3, 3, 0, 1}
+			if g.Chance(0.15) {
+				weights[2] = 1
+			}
+			for i := 0; i < t; i++ {
+				letters = append(letters, byte('0'+i))
+				weights = append(weights, 3)
+			}
+			g.Casef("pf %d %d %d %s %s %s", t, g.Pick(0, 0, 1, 2, 5), g.Pick(1, 1, 2, 4), randOps(g, nops, g.Chance(0.3)),
+				hx.B(g.Chance(0.9)), randSched(g, letters, weights, g.Range(0, 4*(t+nops)+4)))
+		}
+	}
+	randPG := func(n int) {
+		// several producers and collectors: shuffled complete schedules (every actor gets the
+		// steps it needs, in a random order) and random schedules, with and without Stop
+		for k := 0; k < n && !g.Done(); k++ {
+			t := g.Pick(1, 2, 2, 3)
+			nprod := g.Pick(1, 2, 2, 3)
+			ncoll := g.Pick(1, 2, 2, 3)
+			var parts []string
+			total := 0
+			letters := []byte{}
+			counts := []int{}
+			weights := []int{}
+			special := g.Chance(0.3)
+			for pi := 0; pi < nprod; pi++ {
+				cnt := g.Pick(0, 1, 1, 2, 3)
+				if pi == 0 && g.Chance(0.5) {
+					cnt = g.Pick(0, 1, 2, t+1)
+				}
+				total += cnt
+				parts = append(parts, randOps(g, cnt, special))
+				letters = append(letters, byte('p'+pi))
+				c := cnt
+				if pi == 0 {
+					c++
+				}
+				counts = append(counts, c)
+				weights = append(weights, 3)
+			}
+			for ci := 0; ci < ncoll; ci++ {
+				letters = append(letters, byte('c'+ci))
+				counts = append(counts, g.Range(1, total+1))
+				weights = append(weights, 3)
+			}
+			for i := 0; i < t; i++ {
+				letters = append(letters, byte('0'+i))
+				counts = append(counts, g.Range(2, total+2))
+				weights = append(weights, 3)
+			}
+			letters = append(letters, 'w')
+			counts = append(counts, 1)
+			weights = append(weights, 1)
+			if g.Chance(0.15) {
+				letters = append(letters, 's')
+				counts = append(counts, 1)
+				weights = append(weights, 1)
+			}
+			var sched string
+			if g.Chance(0.5) {
+				sched = shuffleMultiset(g, letters, counts)
+			} else {
+				sched = randSched(g, letters, weights, g.Range(0, 4*(t+total)+4))
+			}
+			if sched == "" {
+				sched = "-"
+			}
+			g.Casef("pg %d %d %d %s %d %s %s", t, g.Pick(0, 0, 1, 2, 5), g.Pick(1, 1, 2, 4), strings.Join(parts, ";"),
+				ncoll, hx.B(g.Chance(0.9)), sched)
+		}
+	}
+	randPP := func(n int) {
+		// all flag combinations, every kind of call (sequential and interleaved histories)
+		callPool := []string{"F1", "F2", "F3", "Fn", "X4.7", "Xn.8", "X5.n", "Xn.n", "R6", "Rn", "B", "W", "W"}
+		for k := 0; k < n && !g.Done(); k++ {
+			fl := fmt.Sprintf("%d%d%d", g.Intn(2), g.Intn(2), g.Intn(2))
+			nc := g.Range(1, 5)
+			var cs []string
+			letters := make([]byte, nc)
+			weights := make([]int, nc)
+			for i := 0; i < nc; i++ {
+				cs = append(cs, callPool[g.Intn(len(callPool))])
+				letters[i] = byte('a' + i)
+				weights[i] = 1
+			}
+			var sched string
+			if g.Chance(0.4) {
+				// sequential history: each call runs to completion in order
+				for i := 0; i < nc; i++ {
+					sched += strings.Repeat(string(letters[i]), 2)
+				}
+			} else {
+				sched = randSched(g, letters, weights, g.Range(0, 2*nc+1))
+			}
+			g.Casef("pp %s %s %s", fl, strings.Join(cs, ","), sched)
+		}
+	}
+	// a first slice of the random forced schedules comes before the enumerations, so that a
+	// widened run (thorough enumerations under a short budget) still reaches them
+	npf, npg, npp := g.Scale(2500, 40000), g.Scale(2500, 50000), g.Scale(3000, 40000)
+	randPP(800)
+	randPG(500)
+	randPF(500)
 	// ---- Processor, forced: every ordering of the workers' start/exit steps and the close
 	for t := 1; t <= 3; t++ {
 		letters := []byte{'p'}
@@ -684,6 +834,18 @@ func c19Gen(g *hx.Gen) {
 			return !g.Done()
 		})
 	}
+	// two collectors (and two producers), no or one operation: every ordering of the close, the
+	// workers' start/exit steps and the collectors' receives
+	multisetPerms([]byte{'p', '0', '1', 'c', 'd'}, []int{1, 2, 2, 1, 1}, func(s string) bool {
+		g.Casef("pg 2 0 1 - 2 1 %s", s)
+		return !g.Done()
+	})
+	multisetPerms([]byte{'p', 'q', '0', 'c', 'd'}, []int{1, 1, 4, 2, 2}, func(s string) bool {
+		if (g.Thorough() && g.Chance(0.3)) || g.Chance(0.03) {
+			g.Casef("pg 1 0 1 -;v1 2 1 %s", s)
+		}
+		return !g.Done()
+	})
 	// two workers, one or two operations, all orderings of worker steps around a fixed
 	// producer/collector pattern
 	for _, ops := range []string{"v1", "v1,v2", "v1,e2,v3"} {
@@ -699,7 +861,9 @@ func c19Gen(g *hx.Gen) {
 		}
 	}
 	// ---- Promise, forced: all orderings of the take/put steps for small sets of calls
-	sets := []string{"F1,W", "W,F1", "F1,F2", "F1,W,F2", "W,F1,W", "F1,F2,W", "X2.7,W,F1", "F1,X2.7,W", "W,W,F1", "F1,W,X3.8"}
+	// (Fn = Fulfill(nil): a legal call; the message {nil, nil} counts as set)
+	sets := []string{"F1,W", "W,F1", "F1,F2", "F1,W,F2", "W,F1,W", "F1,F2,W", "X2.7,W,F1", "F1,X2.7,W", "W,W,F1", "F1,W,X3.8",
+		"Fn,F1", "Fn,F1,W", "Fn,W,F1", "F1,Fn,W", "Fn,X2.7,W", "W,W,X2.7", "W,X2.7,W"}
 	for _, fl := range []string{"000", "001", "010"} {
 		for _, set := range sets {
 			n := strings.Count(set, ",") + 1
@@ -717,11 +881,37 @@ func c19Gen(g *hx.Gen) {
 			})
 		}
 	}
+	// every flag combination, every kind of call (Recover, Break, nil values, Fail with a nil
+	// error): all orderings of the two steps of each call; sampled in the quick tier
+	allFlags := []string{"000", "001", "010", "011", "100", "101", "110", "111"}
+	allSets := []string{"F1,B,W", "F1,W,B", "W,B,F1", "B,W,F1", "F1,B,F2", "F1,R2,W", "F1,W,R2", "X2.7,R3,W",
+		"X2.7,Rn,W", "W,F1,Rn", "F1,Rn,F2", "F1,F2,W", "Fn,X5.7,W", "Xn.n,X5.7,W", "X5.n,F1,W", "W,W,B",
+		"Fn,F1,W", "Fn,W,F2", "Fn,Fn,W", "Xn.n,F1,W", "W,W,X2.7", "W,W,R3", "W,W,Xn.n"}
+	for _, fl := range allFlags {
+		for _, set := range allSets {
+			multisetPerms([]byte{'a', 'b', 'c'}, []int{2, 2, 2}, func(s string) bool {
+				if g.Thorough() || g.Chance(0.2) {
+					g.Casef("pp %s %s %s", fl, set, s)
+				}
+				return !g.Done()
+			})
+		}
+		for _, set := range []string{"F1,W,B,W", "F1,R2,W,W", "X2.7,W,R3,F4", "W,F1,B,R2", "F1,F2,W,W"} {
+			multisetPerms([]byte{'a', 'b', 'c', 'd'}, []int{2, 2, 2, 2}, func(s string) bool {
+				if (g.Thorough() && g.Chance(0.25)) || g.Chance(0.01) {
+					g.Casef("pp %s %s %s", fl, set, s)
+				}
+				return !g.Done()
+			})
+		}
+	}
 	// four goroutines: sampled in the quick tier, exhaustive in the thorough one
-	for _, set := range []string{"F1,W,W,F2", "W,F1,F2,W", "F1,X2.7,W,W", "F1,F2,F3,W"} {
+	for _, set := range []string{"F1,W,W,F2", "W,F1,F2,W", "F1,X2.7,W,W", "F1,F2,F3,W", "Fn,W,F1,W"} {
 		letters := []byte{'a', 'b', 'c', 'd'}
 		multisetPerms(letters, []int{2, 2, 2, 2}, func(s string) bool {
-			g.Casef("pp 000 %s %s", set, s)
+			if g.Thorough() || g.Chance(0.6) {
+				g.Casef("pp 000 %s %s", set, s)
+			}
 			return !g.Done()
 		})
 	}
@@ -765,52 +955,10 @@ func c19Gen(g *hx.Gen) {
 		mode := g.Pick(0, 0, 1, 1, 2)
 		g.Casef("pu %d %d %d %d %s %d", t, gmp, g.Pick(0, 0, 1, 2, 7, 64), g.Pick(0, 1, 3, 16), randOps(g, nops, g.Chance(0.1)), mode)
 	}
-	// ---- random forced schedules last (they take most of the time)
-	// random configurations and schedules
-	nf := g.Scale(2500, 40000)
-	for k := 0; k < nf && !g.Done(); k++ {
-		t := g.Pick(1, 2, 2, 3, 3, 4)
-		nops := g.Pick(0, 1, t-1, t, t+1, t+3, 2*t+1)
-		if nops < 0 {
-			nops = 0
-		}
-		letters := []byte{'p', 'c', 's', 'w'}
-		weights := []int{3, 3, 0, 1}
-		if g.Chance(0.15) {
-			weights[2] = 1
-		}
-		for i := 0; i < t; i++ {
-			letters = append(letters, byte('0'+i))
-			weights = append(weights, 3)
-		}
-		g.Casef("pf %d %d %d %s %s %s", t, g.Pick(0, 0, 1, 2, 5), g.Pick(1, 1, 2, 4), randOps(g, nops, g.Chance(0.3)),
-			hx.B(g.Chance(0.9)), randSched(g, letters, weights, g.Range(0, 4*(t+nops)+4)))
-	}
-	// all flag combinations, every kind of call (sequential and interleaved histories)
-	np := g.Scale(3000, 40000)
-	callPool := []string{"F1", "F2", "F3", "Fn", "X4.7", "Xn.8", "X5.n", "Xn.n", "R6", "Rn", "B", "W", "W"}
-	for k := 0; k < np && !g.Done(); k++ {
-		fl := fmt.Sprintf("%d%d%d", g.Intn(2), g.Intn(2), g.Intn(2))
-		n := g.Range(1, 5)
-		var cs []string
-		letters := make([]byte, n)
-		weights := make([]int, n)
-		for i := 0; i < n; i++ {
-			cs = append(cs, callPool[g.Intn(len(callPool))])
-			letters[i] = byte('a' + i)
-			weights[i] = 1
-		}
-		var sched string
-		if g.Chance(0.4) {
-			// sequential history: each call runs to completion in order
-			for i := 0; i < n; i++ {
-				sched += strings.Repeat(string(letters[i]), 2)
-			}
-		} else {
-			sched = randSched(g, letters, weights, g.Range(0, 2*n+1))
-		}
-		g.Casef("pp %s %s %s", fl, strings.Join(cs, ","), sched)
-	}
+	// ---- the rest of the random forced schedules last (they take most of the time)
+	randPP(npp - 800)
+	randPG(npg - 500)
+	randPF(npf - 500)
 }
 
 func shuffleMultiset(g *hx.Gen, letters []byte, counts []int) string {
